@@ -559,6 +559,10 @@ pub trait Object {
                     .next()
                     .and_then(|i| i.strip_suffix("]"))
                     .and_then(|i| i.parse::<usize>().ok())?;
+                // NOTE: Only a single index is supported, anything after it must not be dropped
+                if parts.next().is_some() {
+                    return None;
+                }
                 match v {
                     Some(Value::Object(value)) => match value.get(k) {
                         Some(Value::Array(a)) => v = Some(a.iter().nth(i)?),
@@ -609,6 +613,9 @@ pub trait Object: Send + Sync {
                     Some(i) => i,
                     None => return None,
                 };
+                if parts.next().is_some() {
+                    return None;
+                }
                 match v {
                     Some(Value::Object(value)) => match value.get(k) {
                         Some(Value::Array(a)) => v = Some(a.iter().nth(i)?),
